@@ -193,7 +193,7 @@ func versCall(r, probe string) (got bool, errish bool, panicked bool) {
 
 func c16MaxN(tier string) int {
 	if tier == "thorough" {
-		return 5
+		return 6
 	}
 	return 3
 }
@@ -208,8 +208,11 @@ func c16Unit(scheme string, n int, tier string) core.Unit {
 				break
 			}
 			for si, ops := range shapes {
-				if n >= 5 && si%4 != 0 {
+				if n == 5 && si%4 != 0 {
 					continue // thorough n=5: every 4th shape (stated in the rule)
+				}
+				if n == 6 && si%64 != 0 {
+					continue // thorough n=6: every 64th shape, all 720 permutations of each
 				}
 				vs := make([]string, n)
 				for i := range vs {
@@ -280,7 +283,7 @@ func init() {
 				"max_constraints":               c16MaxN(tier),
 			}
 		},
-		Rule:        "base ranges = every spec-valid comparator shape of length 1..n (quick 3, thorough 5; at n=5 every 4th shape) instantiated from the increasing pools of C04 (pairwise non-equivalent versions); variants of each: ALL permutations of the constraints; space insertion at every subset of slots (before, inside a 2-character operator, between operator and version, inside the version, after) for <= 10 slots, else every single slot, every pair of slots and all slots; every non-empty subset of constraints duplicated (adjacent / at the far end / with different spacing); an empty constraint in every subset of gaps, blank constraints; one combined variant. Every variant is evaluated on every probe and must give the same (result, error-ness) as the canonical spelling. states = base ranges, transitions = variants, distinct_nontrivial = comparisons whose canonical result is true.",
+		Rule:        "base ranges = every spec-valid comparator shape of length 1..n (quick 3, thorough 6; at n=5 every 4th shape, at n=6 every 64th shape with all 720 permutations) instantiated from the increasing pools of C04 (pairwise non-equivalent versions); variants of each: ALL permutations of the constraints; space insertion at every subset of slots (before, inside a 2-character operator, between operator and version, inside the version, after) for <= 10 slots, else every single slot, every pair of slots and all slots; every non-empty subset of constraints duplicated (adjacent / at the far end / with different spacing); an empty constraint in every subset of gaps, blank constraints; one combined variant. Every variant is evaluated on every probe and must give the same (result, error-ness) as the canonical spelling. states = base ranges, transitions = variants, distinct_nontrivial = comparisons whose canonical result is true.",
 		Assumptions: []string{"only the space character is inserted (TAB/CR/LF are non-printable and belong to C17)", "n > 5 and sampled permutations beyond 6 constraints are not explored"},
 	})
 }
